@@ -114,6 +114,21 @@ def nWrapSingle : NormId := ("attr", "if isinstance(_, tuple) and isinstance(_[0
 def nLinearMono : NormId := ("attr", "if isinstance(_, list) or isinstance(_, tuple): @ = list(_) elif _ is not None: @ = [_] * self.num_input_dims else: @ = [0] * self.num_input_dims")
 def nFloatOr : NormId := ("attr", "if _ is None: @ = float(num_keypoints) else: @ = float(_)")
 
+def nAsTuples : NormId := ("attr", "as_tuples = lambda ps: [tuple(p) for p in ps] if ps else ps; @ = as_tuples(_)")
+
+/-- `[tuple(p) for p in ps] if ps else ps` (fix 7780660): a non-empty sequence of sequences becomes a
+LIST of TUPLES; anything else is left alone (`tuple(3)` raises: there is no object) -/
+def isSeqItem : Item → Bool
+  | .s _ _ => true
+  | _ => false
+def toTupleItem : Item → Item
+  | .s _ ys => Item.s true ys
+  | it => it
+def asTuples (v : Val) : Val :=
+  match v with
+  | .s t xs => if !xs.isEmpty && xs.all isSeqItem then .s false (xs.map toTupleItem) else .s t xs
+  | v => v
+
 def toFloat (ctx : Val) (v : Val) : Val :=
   match v with
   | .a .none => (match ctx with | .a (.int i) => .a (.flt i) | .a (.flt r) => .a (.flt r) | _ => .a (.flt 0))
@@ -131,13 +146,15 @@ def valNorm (n : NormId) (o : String → Val) (v : Val) : Val :=
   else if n = nLinearMono then
     linearBroadcast (match o "num_input_dims" with | .a (.int k) => k.toNat | _ => 0) v
   else if n = nFloatOr then toFloat (o "num_keypoints") v
+  else if n = nAsTuples then asTuples v
   else v
 
 def valSem : Sem Val := ⟨valNorm, Val.truthy⟩
 
 /-- the modelled normaliser ids -/
 def modelledNorms : List NormId :=
-  [idNorm, ("attr", "keras_base"), nCanonMono0, nCanonMono1, nCanonTrust, nCanonUni, nWrapSingle, nLinearMono, nFloatOr]
+  [idNorm, ("attr", "keras_base"), nCanonMono0, nCanonMono1, nCanonTrust, nCanonUni, nWrapSingle, nLinearMono, nFloatOr,
+   nAsTuples]
 
 /-- composite normalisers that are NOT modelled: Keras' `serialize ∘ get` of initialisers /
 regularisers / layers / nested configs, and the wrap of a single joint-unimodality tuple (nesting
@@ -147,9 +164,9 @@ def opaqueNorms : List NormId := [
   ("[keras.layers.serialize(layer, use_legacy_format=True) for layer in @]",
    "@ = []; for calibration_layer in _ or []: if not isinstance(calibration_layer, dict): @.append(calibration_layer) else: with keras.utils.custom_object_scope({'Lattice': lattice_layer.Lattice, 'Linear': linear_layer.Linear, 'PWLC…#f9904f4f"),
   ("[keras.regularizers.serialize(r, use_legacy_format=True) for r in @]",
-   "@ = []; if _: if callable(_) or (isinstance(_, tuple) and isinstance(_[0], six.string_types)): _ = [_] for reg in _: if isinstance(reg, tuple): name, l1, l2 = reg if name.lower() == 'laplacian': @.append(LaplacianRegularizer(l1=…#daffdeb5"),
+   "@ = []; if _: if callable(_) or (isinstance(_, tuple) and isinstance(_[0], six.string_types)): _ = [_] for reg in _: if isinstance(reg, tuple): name, l1, l2 = reg if name.lower() == 'laplacian': @.append(LaplacianRegularizer(l1=…#825ac3fb"),
   ("[keras.regularizers.serialize(r, use_legacy_format=True) for r in @]",
-   "@ = []; if _: if callable(_) or (isinstance(_, tuple) and isinstance(_[0], six.string_types)): _ = [_] for regularizer in _: if isinstance(regularizer, tuple): name, l1, l2 = regularizer if name.lower() == 'torsion': @.append(To…#1d245f25"),
+   "@ = []; if _: if callable(_) or (isinstance(_, tuple) and isinstance(_[0], six.string_types)): _ = [_] for regularizer in _: if isinstance(regularizer, tuple): name, l1, l2 = regularizer if name.lower() == 'torsion': @.append(To…#17574899"),
   ("[keras.regularizers.serialize(r, use_legacy_format=True) for r in @]",
    "@ = []; if _: if callable(_): _ = [_] for reg in _: @.append(keras.regularizers.get(reg))"),
   ("attr", "if isinstance(_, tuple) and len(_) == 2 and isinstance(_[1], six.string_types): @ = [_] else: @ = _"),
@@ -167,6 +184,8 @@ def opaqueNorms : List NormId := [
    "if output_min is not None and output_max is not None: if _ == 'constant': _ = keras.initializers.Constant((output_min + output_max) / 2) elif _ == 'uniform': _ = keras.initializers.RandomUniform(output_min, output_max); @ = kera…#c33846db"),
   ("keras.initializers.serialize(@, use_legacy_format=True)", "if use_bias: @ = keras.initializers.get(_)"),
   ("keras.utils.legacy.serialize_keras_object(@)", "id"),
+  -- `enum.Enum(member) = member` and `Enum(value) = member` (fix 07828c0): idempotent
+  ("attr", "@ = pwl_calibration_lib.BoundConstraintsType(_)"),
   ("serialize_keras_object_list", "nested_config_list")]
 
 def okNorms : List NormId := modelledNorms ++ opaqueNorms
